@@ -17,12 +17,8 @@ Spaces(n) == [i \in 1..n |-> " "]
 Pow10(n) == CASE n = 0 -> 1 [] n = 1 -> 10 [] n = 2 -> 100 [] n = 3 -> 1000 [] n = 4 -> 10000
               [] n = 5 -> 100000 [] n = 6 -> 1000000
 
-LowerOf(c) ==
-  CASE c = "A" -> "a" [] c = "B" -> "b" [] c = "C" -> "c" [] c = "D" -> "d" [] c = "E" -> "e" [] c = "F" -> "f"
-    [] c = "G" -> "g" [] c = "H" -> "h" [] c = "I" -> "i" [] c = "J" -> "j" [] c = "K" -> "k" [] c = "L" -> "l"
-    [] c = "M" -> "m" [] c = "N" -> "n" [] c = "O" -> "o" [] c = "P" -> "p" [] c = "Q" -> "q" [] c = "R" -> "r"
-    [] c = "S" -> "s" [] c = "T" -> "t" [] c = "U" -> "u" [] c = "V" -> "v" [] c = "W" -> "w" [] c = "X" -> "x"
-    [] c = "Y" -> "y" [] c = "Z" -> "z" [] OTHER -> c
+LowerTab == [c \in {UpperLetters[k] : k \in 1..26} |-> LowerLetters[CHOOSE k \in 1..26 : UpperLetters[k] = c]]
+LowerOf(c) == IF c \in DOMAIN LowerTab THEN LowerTab[c] ELSE c
 MonthNames == <<"January", "February", "March", "April", "May", "June", "July", "August", "September",
                 "October", "November", "December">>
 DayNames == <<"Sunday", "Monday", "Tuesday", "Wednesday", "Thursday", "Friday", "Saturday">>   \* 1 = Sunday
